@@ -1578,7 +1578,20 @@ def gof_part(chk, n_cfg, n_samples, nproc):
         if via == "backend":
             kind = "perfect"
         spec = gen_proc_spec(rng, kind)
+        if via == "processor-shots":
+            # the performance estimates are tested on these: imperfect processor, shot limit not rescaled
+            # (effective photon filter below 2), a sizeable yield
+            shot_kinds = ["noisy-selected", "noisy", "selected", "everything", "detectors"]
+            for t in range(60):
+                spec = gen_proc_spec(rng, shot_kinds[(i // len(vias) + t) % len(shot_kinds)])
+                if (spec["filter"] or 0) + sum(spec["heralds"].values()) < 2 and spec_yield(spec) >= 0.05:
+                    break
         jobs.append((spec, via, n_samples, rng.randrange(2 ** 31)))
+    if not any(j[0]["noise"] and j[0]["noise"]["indistinguishability"] < 1 for j in jobs):
+        for j in jobs:
+            if j[0]["noise"]:
+                j[0]["noise"]["indistinguishability"] = 0.5     # at least one configuration with tagged inputs
+                break
     if nproc > 1:
         ctx = mp.get_context("spawn")
         with ctx.Pool(nproc) as pool:
